@@ -213,6 +213,9 @@ def cases(tier, seed):
     for k in range(60 if tier == "quick" else 600):
         i += 1
         yield {"id": i, "fam": "apiterm", "seed": base + k}
+    for kind in sorted(ERRS):
+        i += 1
+        yield {"id": i, "fam": "iso-repeat", "kind": kind}
     nv = 14 if tier == "quick" else 150
     for k in range(nv):
         rng = random.Random(base + k)
@@ -368,6 +371,51 @@ def run_apiterm(case):
     return dict(base, verdict="held", observed=obs)
 
 
+
+# ------------------------------------------------------------------ the same error again: every failure is reported
+REPEAT_HEADER = HEADER.replace("  start victim\n", "  activate victim\n").replace("flow victim\n", "flow victim\n  match G()\n")
+
+
+def run_repeat(case):
+    """An ACTIVATED flow fails with the very same error each time its event arrives: every failure must be reported as a
+    ColangError event (the error-watch flow, itself activated, answers each with SawError) and the witnesses keep reacting."""
+    from . import steps
+
+    kind = case["kind"]
+    stmt = ERRS[kind].replace("{ind}", "  ")
+    src = REPEAT_HEADER + "  " + stmt + "\n  match Never()\n"
+    hist = ["G", "E", "G", "F", "G", "G", "E"]
+    res = {"key": "repeat:" + kind, "fam": "iso-repeat", "kind": kind, "nontrivial": True, "sample": {"program": src, "history": hist, "error_kind": kind}}
+    obs = {"repeat_" + kind: 1}
+    _R["max_ratio"] = 0.0
+    _R["rtc_calls"] = 0
+    try:
+        outs = asyncio.run(_drive(src, hist))
+    except steps.StepBudgetExceeded:
+        return dict(res, verdict="violated", observed=obs, mech="step-budget-exceeded", witness={"program": src, "history": hist})
+    except BaseException as e:
+        if isinstance(e, (KeyboardInterrupt, SystemExit, steps.WatchdogTimeout)):
+            raise
+        return dict(res, verdict="violated", observed=obs, mech="exception-escaped-process-events:%s" % type(e).__name__, witness={"program": src, "history": hist, "escaped": str(e)[:200]})
+    per_g = [step.count("SawError") for step, ev in zip(outs[1:], hist) if ev == "G"]
+    wit = [[x for x in step if x in ("OutWE", "OutWF", "OutWG")] for step in outs[1:]]
+    exp_wit = [["OutW" + ev] for ev in hist]
+    obs["repeated_failures_checked"] = len(per_g)
+    problems = []
+    if kind in REGEX_KINDS:
+        # an invalid pattern is only evaluated when the NEXT G arrives: the victim fails (and is restarted) on every second G
+        want = [i % 2 for i in range(len(per_g))]
+    else:
+        want = [1] * len(per_g)
+    if per_g != want:
+        problems.append("failure-not-reported-each-time")
+    if wit != exp_wit:
+        problems.append("unrelated-witness-output-differs")
+    if problems:
+        return dict(res, verdict="violated", observed=obs, mech="+".join(problems), witness={"program": src, "history": hist, "outputs": outs, "saw_error_per_G": per_g})
+    return dict(res, verdict="held", observed=obs)
+
+
 async def _drive(src, hist):
     from nemoguardrails import RailsConfig
 
@@ -469,12 +517,16 @@ def run_case(case):
         return run_term(case)
     if case["fam"] == "apiterm":
         return run_apiterm(case)
+    if case["fam"] == "iso-repeat":
+        return run_repeat(case)
     return run_iso(case)
 
 
 def classify(r):
     if r.get("fam") == "apiterm":
         return "api-termination:%s" % r.get("mech")
+    if r.get("fam") == "iso-repeat":
+        return "repeated-failure:%s:%s" % (r.get("kind"), r.get("mech"))
     if r.get("fam") == "term":
         m = r.get("meta", {})
         if m.get("fails_before_wait"):
